@@ -60,3 +60,47 @@ func Verif_C03_recreate() {
 	verifAssert(eqBytes(g2, v2), "old root: k2 value")
 	verifReach("end")
 }
+
+// Three keys, commit, delete one of them (or overwrite it), commit again, recreate from the new root:
+// the recreated trie holds exactly the remaining pairs and has the new root; the first root is still there.
+func Verif_C03_commitDeleteCommit() {
+	kl := verifParam("keyLen")
+	tr, _ := verifNewTrieLevel(uint(verifParam("level")))
+	keys := [][]byte{verifKey("k1", kl), verifKey("k2", kl), verifKey("k3", kl)}
+	vals := [][]byte{verifBytes("v1", 1), verifBytes("v2", 1), verifBytes("v3", 1)}
+	verifAssume(!eqBytes(keys[0], keys[1]) && !eqBytes(keys[0], keys[2]) && !eqBytes(keys[1], keys[2]))
+	for i := range keys {
+		_ = tr.Update(keys[i], vals[i])
+	}
+	verifAssert(tr.Commit() == nil, "first commit")
+	root1, _ := tr.RootHash()
+	d := verifChoice("deleted", 3)
+	if verifBool("overwriteInstead") {
+		_ = tr.Update(keys[d], []byte("new"))
+	} else {
+		_ = tr.Delete(keys[d])
+	}
+	verifAssert(tr.Commit() == nil, "second commit")
+	root2, _ := tr.RootHash()
+	rec, err := tr.Recreate(root2)
+	verifAssert(err == nil && rec != nil, "the second root is recreatable")
+	if err == nil && rec != nil {
+		for i := range keys {
+			g1, e1 := tr.Get(keys[i])
+			g2, e2 := rec.Get(keys[i])
+			verifAssert(e1 == nil && e2 == nil, "reads succeed on the committed and on the recreated trie")
+			verifAssert(eqBytes(g1, g2), "recreated trie has the contents of the second commit")
+		}
+		rr, _ := rec.RootHash()
+		verifAssert(eqBytes(rr, root2), "recreated trie has the second root")
+	}
+	old, err := tr.Recreate(root1)
+	verifAssert(err == nil && old != nil, "the first root is still recreatable")
+	if err == nil && old != nil {
+		for i := range keys {
+			g, e := old.Get(keys[i])
+			verifAssert(e == nil && eqBytes(g, vals[i]), "the first root still has its contents")
+		}
+	}
+	verifReach("end")
+}
